@@ -247,17 +247,25 @@ Fixpoint sort_children (fuel : nat) (dc : list (string * list string)) (all : li
   end.
 
 (* [ord] is the order in which Go happens to range over the directoryChildren
-   map; theorems quantify over every permutation of its keys. OutOfFuel stands
-   for unbounded recursion (a header whose cleaned name is "." and which is a
-   directory is its own child). *)
-Definition sort_headers_ord (ord : list string) (hs : list hdr) : res (list hdr) :=
+   map; theorems quantify over every permutation of its keys.
+   Since fix f716198 sortTarHeaders skips an entry whose cleaned name is "." (tar entry "./": the
+   archive root, its own parent) before it fills the two maps; the entry does not appear in the
+   result. [sort_headers_ord_raw] / [sort_headers_raw] are the function WITHOUT that test — what
+   the code was before the fix (hypothetical now): there a directory entry that cleans to "." is its
+   own child and the recursion does not end (OutOfFuel; finding C15-F4, fixed). *)
+Definition sort_headers_ord_raw (ord : list string) (hs : list hdr) : res (list hdr) :=
   let dc := dir_children hs in
   let all := all_headers hs in
   let dir_entries := ssort ord in
   let top := ssort (filter (fun d => path_dir d =? ".") dir_entries) in
   sort_children (S (S (List.length hs))) dc all top.
+Definition sort_headers_raw (hs : list hdr) : res (list hdr) :=
+  sort_headers_ord_raw (map fst (dir_children hs)) hs.
+Definition not_dot (h : hdr) : bool := negb (clean (h_name h) =? ".").
+Definition sort_headers_ord (ord : list string) (hs : list hdr) : res (list hdr) :=
+  sort_headers_ord_raw ord (filter not_dot hs).
 Definition sort_headers (hs : list hdr) : res (list hdr) :=
-  sort_headers_ord (map fst (dir_children hs)) hs.
+  sort_headers_raw (filter not_dot hs).
 
 (* ============================================================================ *)
 Section Codec.
